@@ -8,7 +8,7 @@ AREA = "c07"
 LEAN_PROPS = "Litep2pVerif.Props.C07"
 THEOREMS = ["exit_reports_closed_once", "tcploop_exit_reports_closed_once", "protocols_before_manager", "live_protocols_all_told",
             "app_closed_iff_last", "established_survives_dead_protocol", "loop_usable_after_protocol_exit",
-            "redial_after_close"]
+            "accept_established_then_closed", "redial_after_close"]
 MANIFEST = {
     "text": "Lean 4 theorems about an operational model of the TCP connection event loop (every exit incl. the `?` exits), of "
             "ProtocolSet::report_connection_{established,closed} over bounded FIFO channels with suspended sends, of the "
